@@ -36,8 +36,9 @@ def gen_plan(rng):
         # the link is lost a drawn number of steps after close(): whatever
         # close() is still waiting for, the connection has to end (what was
         # written may be lost then)
-        'cut': {'after': rng.below(6), 'how': rng.choice(['rst', 'eof'])}
-        if rng.chance(20) else None,
+        'cut': {'after': rng.below(6),
+                'how': rng.choice(['rst', 'eof', 'silence'])}
+        if rng.chance(25) else None,
     }
 
 
@@ -54,7 +55,7 @@ def valid_plan(plan):
         cut = plan.get('cut')
 
         if cut is not None and (not 0 <= cut['after'] <= 20 or
-                                cut['how'] not in ('rst', 'eof')):
+                                cut['how'] not in ('rst', 'eof', 'silence')):
             return False
 
         # everything fits the default window: drain() then means "handed to
@@ -145,7 +146,12 @@ def run_plan(plan, sched_seed=None, sched_replay=None):
             for _ in range(plan['cut']['after']):
                 await sim.pause('cut')
 
-            if sim.net.connections:
+            if sim.net.connections and plan['cut']['how'] == 'silence':
+                # nothing gets through any more, in either direction, and
+                # nobody says so
+                sim.net.connections[0].stall()
+                sim.probes['link_silent_after_close'] += 1
+            elif sim.net.connections:
                 sim.net.connections[0].cut(plan['cut']['how'])
                 sim.probes['link_cut_after_close'] += 1
 
@@ -167,11 +173,19 @@ def run_plan(plan, sched_seed=None, sched_replay=None):
         for _ in range(4):
             await sim.pause('settle')
 
-        if plan['writer'] == 'c':
-            await write_and_close(chan, conn)
-        else:
-            srv = res['srv']
-            await write_and_close(srv.chan, srv.chan.get_connection())
+        sconn = res['srv'].chan.get_connection()
+        closer, other = (conn, sconn) if plan['writer'] == 'c' \
+            else (sconn, conn)
+        await write_and_close(chan if plan['writer'] == 'c'
+                              else res['srv'].chan, closer)
+
+        # whatever the link does, the side that closed gets done with it
+        await closer.wait_closed()
+        res['closer_done'] = True
+
+        if (plan.get('cut') or {}).get('how') == 'silence':
+            # (the other side cannot know: end it by hand)
+            other.abort()
 
         await conn.wait_closed()
         acc.close()
@@ -223,7 +237,8 @@ def run_plan(plan, sched_seed=None, sched_replay=None):
                             'written')
 
         for s in (res['srv'], res['cli']):
-            if s is not None and (s.lost != 1 or s.after_lost):
+            if s is not None and (s.lost != 1 or s.after_lost) and \
+                    not sim.hung():
                 world.violation('lost-count', 'connection_lost called %d '
                                 'times, %d deliveries after it' %
                                 (s.lost, s.after_lost))
